@@ -18,7 +18,9 @@ ID = "C04"
 TITLE = "Serialization yields the JSON image prescribed by the type"
 RULE = ("Hypothesis draws a type program (objects with aliases, defaults, flatten, properties, skip(serialization / "
         "serialization_if / serialization_default), none_as_undefined, Undefined defaults, init=False, InitVar, TypedDict, "
-        "NamedTuple, enums, NewTypes, unions without Literal members), 3-6 typed values of the root type (built through the "
+        "NamedTuple, enums, NewTypes, unions without Literal members, the std converted types (UUID, dates, Decimal, bytes, Path, "
+        "IPv4Address), serialized methods / properties on 35% of the dataclasses - returning a field or a constant, aliased or not, "
+        "possibly Undefined, possibly the class itself), 3-6 typed values of the root type (built through the "
         "model from valid data, then perturbed towards None / default-equal / Undefined field values) and serialization options "
         "(aliaser, exclude_none, exclude_defaults, additional_properties, check_type, fall_back_on_any).  Oracle: reference model "
         "image (key order included, sets as multisets); output made only of dict-with-str-keys / list / str / int / float / bool / None "
@@ -38,7 +40,7 @@ LEVEL_NOTE = "Trusted: vlib/model.py serializer (documented rules), value constr
 
 @st.composite
 def strategy_(draw, tier):
-    cfg = {"max_depth": 3 if tier == "quick" else 4, "std": True, "lit_in_union": False, "unsup": False}
+    cfg = {"max_depth": 3 if tier == "quick" else 4, "std": True, "methods": True, "lit_in_union": False, "unsup": False}
     prog = draw(gen.programs(cfg))
     opts = {
         "aliaser": pick(draw, ["id", "id", "camel", "pfx"]),
